@@ -171,7 +171,7 @@ pub fn gen_simple(r: &mut Rng, lat: bool, big: bool) -> Vec<P2> {
 }
 
 pub fn gen(r: &mut Rng, thorough: bool) -> Vec<(String, String)> {
-    let n = if thorough { 6000 } else { 600 };
+    let n = if thorough { 12000 } else { 1500 };
     let mut v = Vec::new();
     for it in 0..n {
         let lat = it % 2 == 0;
